@@ -348,6 +348,7 @@ class Interp:
         self.call_stack: List[str] = []
         self._with_stack: List[List[Any]] = []
         self._gen_current: Any = None
+        self._handling: List[Dict[str, Any]] = []
         self._ctx_yield: List[Tuple[int, Any]] = []
         self._ctx_running: Any = None
         from . import extlib  # late import (extlib uses this module's names)
@@ -1132,11 +1133,52 @@ class Interp:
                 return ("raise", None)
             return ("return", v)
         if isinstance(st, ast.Raise):
-            exc = None
-            if st.exc is not None:
-                base = st.exc.func if isinstance(st.exc, ast.Call) else st.exc
-                exc = _dotted(base)
-            self.log("raise", st, exc=exc)
+            if st.exc is None:
+                # bare `raise`: re-raise the exception being handled
+                cur = self._handling[-1] if self._handling else None
+                if cur is not None:
+                    self.log("raise", st, exc=cur["exc"], chain=cur.get("chain"), value=cur.get("value"), exc_class=cur.get("exc_class"))
+                    return ("raise", cur["exc"])
+                self.log("raise", st, exc=None)
+                return ("raise", None)
+            base = st.exc.func if isinstance(st.exc, ast.Call) else st.exc
+            exc = _dotted(base)
+            chain: List[str] = [exc.split(".")[-1]] if exc else []
+            value: Any = None
+            exc_class = None
+            try:
+                cv = self.eval(base, env, mi)
+            except Unsupported:
+                cv = None
+            if isinstance(cv, Obj) and isinstance(cv.term, T) and cv.term.op == "exc":
+                # `raise e` of a caught exception object
+                chain = list(cv.attrs.get("__chain__", [cv.term.args[0]]))
+                exc, value = cv.attrs.get("__exc__", cv.term.args[0]), cv
+            elif isinstance(cv, ClassV):
+                exc_class = cv.qualname
+                names = [cv.node.name]
+                for b_ in self._all_bases(cv):
+                    names.append(b_.node.name if isinstance(b_, ClassV) else (b_.name.split(".")[-1] if isinstance(b_, ExtV) else "?"))
+                chain = names
+                builtin = next((n_ for n_ in names[1:] if n_ in _EXC_PARENT or n_ in ("Exception", "BaseException")), "Exception")
+                exc = builtin
+                try:
+                    value = self.eval(st.exc, env, mi) if isinstance(st.exc, ast.Call) else self.call_function(cv, [], {}, st)
+                except Unsupported:
+                    value = None
+                if value is BOTTOM:
+                    return ("raise", None)
+            elif isinstance(st.exc, ast.Call):
+                try:
+                    argv = [self.eval(a_, env, mi) for a_ in st.exc.args if not isinstance(a_, ast.Starred)]
+                except Unsupported:
+                    argv = []
+                value = Obj("builtins." + (chain[0] if chain else "Exception"), attrs={"args": tuple(argv)}, term=T("exc", (chain[0] if chain else "Exception",)))
+            n0 = chain[-1] if chain else None
+            while n0 in _EXC_PARENT:
+                n0 = _EXC_PARENT[n0]
+                chain.append(n0)
+            self.log("raise", st, exc=exc, chain=chain, value=value, exc_class=exc_class)
             return ("raise", exc)
         if isinstance(st, ast.Assert):
             c = self.truth(self.eval(st.test, env, mi), st)
@@ -1247,7 +1289,13 @@ class Interp:
                     else:
                         names = [(_dotted(h.type) or "").split(".")[-1]]
                     base = (exc or "").split("(")[0]
-                    if "*" in names or base in names or "Exception" in names or "BaseException" in names or (base in ("KeyError", "IndexError") and "LookupError" in names):
+                    chain_ = list(excs[-1].get("chain") or []) if excs else []
+                    if not chain_:
+                        chain_, n0_ = [base], base
+                        while n0_ in _EXC_PARENT:
+                            n0_ = _EXC_PARENT[n0_]
+                            chain_.append(n0_)
+                    if "*" in names or any(c_ in names for c_ in chain_) or "Exception" in names or "BaseException" in names:
                         handler = h
                         break
                 if handler is None or exc is None:
@@ -1258,8 +1306,17 @@ class Interp:
                     self.events.remove(last)
                     self.log("handled", st, exc=exc)
                     if handler.name:
-                        env.vars[handler.name] = Obj("builtins." + base, term=T("exc", (base,)))
-                    k2, v2 = self.exec_stmts(list(handler.body), env, mi, lambda e: ("next", None))
+                        val_ = last.get("value")
+                        if not isinstance(val_, Obj):
+                            val_ = Obj("builtins." + base, term=T("exc", (base,)))
+                        val_.attrs.setdefault("__chain__", list(last.get("chain") or [base]))
+                        val_.attrs.setdefault("__exc__", exc)
+                        env.vars[handler.name] = val_
+                    self._handling.append({"exc": exc, "chain": last.get("chain"), "value": last.get("value"), "exc_class": last.get("exc_class")})
+                    try:
+                        k2, v2 = self.exec_stmts(list(handler.body), env, mi, lambda e: ("next", None))
+                    finally:
+                        self._handling.pop()
                     if k2 != "next":
                         out = (k2, v2) if not (k2 == "return" and v2 is BOTTOM) else ("raise", None)
             elif kind != "next":
@@ -2093,6 +2150,8 @@ class Interp:
         if isinstance(v, ExtV):
             if attr == "__name__":
                 return v.name.rsplit(".", 1)[-1]
+            if attr == "__module__" and "." in v.name:
+                return v.name.rsplit(".", 1)[0]
             if v.name + "." + attr in self.ext.EXT_CONSTS:
                 return self.ext.EXT_CONSTS[v.name + "." + attr]
             return ExtV(v.name + "." + attr)
@@ -2289,6 +2348,12 @@ class Interp:
             return Unknown(f"symbolic index {fmt(idx)} into concrete sequence")
         if isinstance(v, dict):
             def missing() -> Any:
+                if type(v).__name__ == "DefaultDictV":
+                    if v.is_counter:
+                        return 0
+                    if v.factory is not None and _hashable(idx):
+                        v[idx] = self.call_function(v.factory, [], {}, node)
+                        return v[idx]
                 self.log("raise", node, exc="KeyError")
                 return BOTTOM
 
@@ -2624,6 +2689,16 @@ def _live_list(lst: list):
             raise Unsupported("loop over a growing list does not terminate within the bound")
 
 
+_EXC_PARENT = {
+    "KeyError": "LookupError", "IndexError": "LookupError", "LookupError": "Exception", "ValueError": "Exception",
+    "TypeError": "Exception", "AttributeError": "Exception", "RuntimeError": "Exception", "NotImplementedError": "RuntimeError",
+    "AssertionError": "Exception", "StopIteration": "Exception", "ZeroDivisionError": "ArithmeticError", "OverflowError": "ArithmeticError",
+    "ArithmeticError": "Exception", "OSError": "Exception", "FileNotFoundError": "OSError", "ImportError": "Exception",
+    "ModuleNotFoundError": "ImportError", "NameError": "Exception", "UnicodeError": "ValueError", "RecursionError": "RuntimeError",
+    "Exception": "BaseException",
+}
+
+
 class _AssignRaised(Unsupported):
     """Unpacking failed (ValueError in the analysed program)."""
 
@@ -2788,8 +2863,50 @@ def _list_method(it: Interp, l: List[Any], attr: str, a: List[Any], k: Dict[str,
         for i, x in enumerate(l):
             if value_eq(x, a[0]):
                 return i
+        it.log("raise", None, exc="ValueError")
         return BOTTOM
+    if attr == "remove":
+        for i, x in enumerate(l):
+            if value_eq(x, a[0]):
+                del l[i]
+                return None
+        it.log("raise", None, exc="ValueError")
+        return BOTTOM
+    if attr == "clear":
+        l.clear()
+        return None
+    if attr == "reverse":
+        l.reverse()
+        return None
+    if attr == "count":
+        return sum(1 for x in l if value_eq(x, a[0]))
+    if attr == "sort":
+        key = k.get("key")
+        try:
+            l.sort(key=(lambda x: _sort_key(it.call_function(key, [x], {}, None))) if key is not None else _sort_key, reverse=bool(k.get("reverse", False)))
+        except TypeError:
+            raise Unsupported("sort of abstract values")
+        return None
+    if attr in ("extendleft", "rotate"):
+        raise Unsupported(f"deque.{attr}")
     raise Unsupported(f"list.{attr}")
+
+
+def _sort_key(x: Any) -> Any:
+    """Ordering key for concrete abstract values (numbers, strings, tuples of those)."""
+    if isinstance(x, (tuple, list)):
+        return tuple(_sort_key(y) for y in x)
+    if isinstance(x, sp.Basic):
+        if not x.is_number:
+            raise TypeError("symbolic")
+        return (0, float(x))
+    if isinstance(x, bool) or isinstance(x, (int, float)):
+        return (0, float(x))
+    if isinstance(x, str):
+        return (1, x)
+    if x is None:
+        raise TypeError("None is not orderable")
+    raise TypeError("abstract")
 
 
 def _percent_format(fmt_s: str, arg: Any) -> str:
